@@ -157,7 +157,7 @@ Proof.
   destruct (acl_allowed (ch_join ch) n); cbn [negb]; [|left; eexists; reflexivity].
   destruct (nmem n (ch_members ch)) eqn:Hm; [left; eexists; reflexivity|].
   destruct (ch_max_clients ch <=? _); [left; eexists; reflexivity|].
-  destruct (match alookup (nu n) (inch (st c)) with Some l => max_subs cfg <=? N.of_nat (length l) | None => false end);
+  destruct (max_subs cfg <=? _);
     [left; eexists; reflexivity|].
   right. exists hd, n. split; [reflexivity|]. cbv zeta. split; [exact Hn|]. split; [exact Hm|].
   destruct (notify cfg "MEMBER_JOINED" _ _ _ _ _ _) as [okn c1] eqn:En.
